@@ -213,6 +213,13 @@ def cosetOf (sample lx lz r : BVec) : Option P1 :=
 def naiveDecode (n : Nat) (S : List BVec) (s : BVec) : Option BVec :=
   (ibsf n 0 n).bind fun l => l.find? fun e => synd S e == s
 
+/-- the decoder on a list of syndromes of one code: the candidate stream `pt.ibsf(n)` is the same for every call, so
+    it is built once (`naive_all_eq`: literally `ss.map (naiveDecode n S)`) — makes the exhaustive comparison over all
+    2^(n-k) syndromes of a code affordable -/
+def naiveDecodeAll (n : Nat) (S : List BVec) (ss : List BVec) : List (Option BVec) :=
+  let c := ibsf n 0 n
+  ss.map fun s => c.bind fun l => l.find? fun e => synd S e == s
+
 inductive NaiveOut
   | valueError
   | pyNone
@@ -225,5 +232,11 @@ def naiveDecodeFull (maxQubits : Option Nat) (n : Nat) (S : List BVec) (s : BVec
   match maxQubits with
   | some m => if m ≠ 0 ∧ n > m then .valueError else (match naiveDecode n S s with | some r => .recovery r | none => .pyNone)
   | none => match naiveDecode n S s with | some r => .recovery r | none => .pyNone
+
+/-- `naiveDecodeFull` on a list of syndromes (guard evaluated once, candidate stream built once) -/
+def naiveDecodeFullAll (maxQubits : Option Nat) (n : Nat) (S : List BVec) (ss : List BVec) : List NaiveOut :=
+  let blocked : Bool := match maxQubits with | some m => decide (m ≠ 0 ∧ n > m) | none => false
+  if blocked then ss.map fun _ => .valueError
+  else (naiveDecodeAll n S ss).map fun o => match o with | some r => .recovery r | none => .pyNone
 
 end Qec.Dec
